@@ -86,6 +86,12 @@ CHECKS = {
         "Turbine options are excluded as unsupported (their parameters are commented out of Configuration); five known findings (indirect process targeting, area targeting at zero approach / with unallocated CU, process and utility heat-pump targeting) are excluded by input-only predicates.",
         "DESIGN.md section 5 C14",
     ),
+    "C15": (
+        "Hypothesis @given problems with area targeting on; independent Bath-formula reference, cost-law identities on direct calls",
+        "Generated-input search (800+2k quick / 20k+50k thorough): balanced curves have equal spans; the area target equals a Bath sum the harness computes itself from the streams and the reported utility duties (enthalpy intervals, duty-weighted film resistances, counter-current LMTD; 1e-4 relative) and is finite and positive; capital = N(a+b(A/N)^c), annualised = capital x CRF with the annuity identity, both strictly increasing in area.",
+        "Utility duties and temperatures on the target are taken as given (C03/C04 decide them); duties >= 50 kW because the routine rounds to 6 dp internally.",
+        "DESIGN.md section 5 C15",
+    ),
     "C17": (
         "Hypothesis @given polylines (targeted on deviation); geometric oracle (point-to-polyline distance, one-sided bound) written in the harness",
         "Generated-input search (3k+400 quick / 100k+10k thorough): clean_composite_curve must return a subsequence covering the whole non-flat extent with every dropped point within 1e-6 of the kept polyline; get_piecewise_data_points must keep both ends and the original order, leave every original point within the requested deviation and respect the hot/cold one-sided bound of a tenth of it.",
